@@ -8,6 +8,7 @@ let modes : (string * (string -> string)) list = [
   "recv", Mode_recv.check_line;
   "ufs", Mode_ufs.check_line;
   "conc", Mode_conc.check_line;
+  "clnt", Mode_clnt.check_line;
 ]
 
 let () =
